@@ -194,9 +194,12 @@ Fixpoint q_run (k : nat) (cs ws : list Z) : list Z :=
    [5; st; max; fail; r1...]  picker.Pick (child state st, countMax max, inner pick fails iff fail=1)
                               obs [result; inflight; CallDropped calls; droppers consulted]
    [6]                        Done of one admitted RPC (ignored if none)     obs [inflight]
-   [7; k; w1; ...; wn]        EDF with these weights, k picks               obs [idx1; ...; idxk]  *)
+   [7; k; w1; ...; wn]        EDF with these weights, k picks               obs [idx1; ...; idxk]
+   [8; m1; m2; k]             real cluster_impl balancer: max_requests m1, update to m2, k picks
+                              obs [new picker pushed by the update; picks admitted]  *)
 Definition maxEnum : Z := 4000.
 Definition maxEdf : Z := 2000.
+Definition maxCfgPicks : Z := 64.
 
 Definition zrange (n : Z) : list Z := map Z.of_nat (seq 0 (Z.to_nat n)).
 
@@ -217,7 +220,8 @@ Inductive opc :=
 | ORwAll (ws : list Z) | ORwOne (r : Z) (ws : list Z)
 | ODropAll (num den : Z) | ODropOne (num den r : Z)
 | OPick (st mx fail : Z) (rs : list Z) | ODone
-| OEdf (k : Z) (ws : list Z).
+| OEdf (k : Z) (ws : list Z)
+| OCfg (m1 m2 k : Z).
 
 Definition decode (op : word) : option opc :=
   match op with
@@ -228,6 +232,7 @@ Definition decode (op : word) : option opc :=
   | 5 :: st :: mx :: fail :: rs => Some (OPick st mx fail rs)
   | [6] => Some ODone
   | 7 :: k :: ws => Some (OEdf k ws)
+  | [8; m1; m2; k] => Some (OCfg m1 m2 k)
   | _ => None
   end.
 
@@ -248,6 +253,12 @@ Definition step (rpms : list Z) (c : cb) (op : opc) : cb * word :=
     let '(c', res) := pick rpms c st mx fail rs in
     (c', [res; cb_num c'; ndrop res; nconsult rpms st res])
   | ODone => let c' := done c in (c', [cb_num c'])
+  | OCfg m1 m2 k =>
+    (* a fresh cluster_impl balancer (fresh request counter): child READY under
+       max_requests = m1, then a config update changing only max_requests to m2, then k picks
+       (none finishes) through the picker the channel holds: was a new picker pushed by the
+       second update, and how many picks were admitted *)
+    (c, [b2z (negb (m2 =? m1)); Z.min (Z.min (Z.max k 0) maxCfgPicks) m2])
   | OEdf k ws =>
     (c, edf_run (Z.to_nat (Z.min (Z.max k 0) maxEdf)) (edf_init 0 ws))
   end.
@@ -425,6 +436,13 @@ Definition clause_op (i : Z) (rpms : list Z) (c : cb) (op : opc) (o : word) : li
   | OPick st mx fail rs => clause_pick i rpms c st mx fail rs o
   | ODone => clause_done i c o
   | OEdf k ws => clause_edf i k ws o
+  | OCfg m1 m2 k =>
+    (* circuit breaking follows the LATEST max_requests: with none of the RPCs finishing,
+       exactly min(k, m2) of k sequential picks are admitted *)
+    match o with
+    | [p; adm] => [(3, i, adm =? Z.min (Z.min (Z.max k 0) maxCfgPicks) m2)]
+    | _ => [(0, i, false)]
+    end
   end.
 
 Fixpoint clauses_from (i : Z) (rpms : list Z) (c : cb) (ops obs : list word) : list (Z * Z * bool) :=
